@@ -2,6 +2,7 @@ package lib
 
 import (
 	"fmt"
+	"github.com/tdewolff/minify/v2"
 	"sort"
 	"strconv"
 	"strings"
@@ -50,6 +51,15 @@ func buildScaled(prefix, unit, suffix []byte, reps int, numberAt int) []byte {
 
 var smallDocs []int
 
+var helperSeeds = [][2]string{
+	{"helper:Mediatype", `video/mp4; codecs="avc1.42E01E, mp4a.40.2"`},
+	{"helper:Mediatype", `text/html ;  charset = "utf-8" ; q=0.8`},
+	{"helper:Mediatype", ` Text/CSS ; a="" ; b=""`},
+	{"helper:DataURI", `data:text/plain;charset=utf-8;x=1;base64,QUJDREVGRw==`},
+	{"helper:DataURI", `data:image/svg+xml;charset=us-ascii,%3Csvg%20xmlns='http://www.w3.org/2000/svg'%3E%3C/svg%3E`},
+	{"helper:DataURI", `data:,a%20b c"d'e<f>`},
+}
+
 func c10Scaling(env *Env, tape *sim.Tape) *CaseOut {
 	out := &CaseOut{Nontrivial: true}
 	if !verifcost.On() {
@@ -72,6 +82,11 @@ func c10Scaling(env *Env, tape *sim.Tape) *CaseOut {
 		}
 	}
 	doc := env.Corpus[di]
+	if tape.Draw(12) == 0 {
+		// the exported string helpers, on the kind of strings they are made for
+		hs := helperSeeds[tape.Draw(len(helperSeeds))]
+		doc = corpus.Doc{MT: hs[0], Name: "helper-seed/" + hs[1], Src: "builtin", Data: []byte(hs[1])}
+	}
 	if len(doc.Data) == 0 || doc.MT == MTEarly || strings.HasPrefix(doc.MT, MTCmd) {
 		out.Nontrivial = false
 		return out
@@ -197,7 +212,25 @@ func scalingProbe(out *CaseOut, doc corpus.Doc, prefix, unit, suffix []byte, num
 		op.W = sim.NewSimWriter(nil)
 		op.R = sim.NewSimReader(nil, data)
 		before := verifcost.Snapshot(nil)
-		op.Exec(nil, m)
+		if strings.HasPrefix(doc.MT, "helper:") {
+			// an exported helper called directly on a private copy
+			func() {
+				defer func() {
+					if r := recover(); r != nil {
+						op.Panic = fmt.Sprint(r)
+					}
+				}()
+				b := append(make([]byte, 0, len(data)+8), data...)
+				switch doc.MT {
+				case "helper:Mediatype":
+					minify.Mediatype(b)
+				case "helper:DataURI":
+					minify.DataURI(m, b)
+				}
+			}()
+		} else {
+			op.Exec(nil, m)
+		}
 		after := verifcost.Snapshot(nil)
 		for i := range after {
 			after[i] -= before[i]
